@@ -45,7 +45,10 @@ func TestVerifPrintSchemaBounded(t *testing.T) {
 	a := withH(ig("a", "shared", "from", "to"), "a")
 	b := withH(ig("b", "shared", "owner", "spender"), "b")
 	c := withH(ig("c", "own", "who"), "c")
-	orders := [][]string{{a, b, c}, {b, a, c}, {c, b, a}, {a, c}, {b}}
+	// d runs on a source that only the database defines (added through the
+	// dashboard): the file alone cannot resolve it, and must not try to
+	d := strings.Replace(withH(ig("d", "own_d", "who"), "d"), `"sources":[{"name":"m"}]`, `"sources":[{"name":"dashboard_source"}]`, 1)
+	orders := [][]string{{a, b, c}, {b, a, c}, {c, b, a}, {a, c}, {b}, {a, d}}
 	cases, fails := 0, 0
 	for oi, igs := range orders {
 		cases++
